@@ -2,7 +2,7 @@
 CFG = dict(
     dirs=["Common", "C10"], gen=True,
     run_targets=["C10/Run.vo"], proof_targets=["C10/Props.vo"], props="C10/Props.v",
-    gen_obligations=["Inst.gen_cfg_fixed: RaftWal::open repairs a torn tail and every term/vote assignment in the handlers is preceded by persist_term_and_vote (read from the source on every run)"],
+    gen_obligations=["Inst.scan_follows_every_length: the tail-repair scan of open (complete_prefix_len) has no record-length bound below what the writer can produce (regenerated from the source)", "Inst.gen_cfg_fixed: RaftWal::open repairs a torn tail and every term/vote assignment in the handlers is preceded by persist_term_and_vote (read from the source on every run)"],
     crate="nvh_c10",
     header=H + "From NV.Common Require Import WalFormat.\nFrom NV.C10 Require Import Model Run.\nOpen Scope N_scope.",
     kinds={"gens": ("gens_case", "check_gens")},
